@@ -50,6 +50,8 @@ type c11Spec struct {
 	OwnMiss bool      `json:"loader_reports_misses_with_its_own_error_type,omitempty"`
 	Files   []c11File `json:"files"`
 	Entry   string    `json:"entry"` // FromFile, FromCache, FromString, FromBytes, RenderTemplate{String,Bytes,File}
+	// WarmUp: the set is used once with its first loader only; the others are added afterwards
+	WarmUp bool `json:"loaders_added_after_first_use,omitempty"`
 	TopName string    `json:"top_name"`
 	Root    string    `json:"-"` // local kinds: temp dir
 }
@@ -263,6 +265,7 @@ func c11Gen(tp *Tapes) *c11Spec {
 		// the process working directory: legitimate, but not a virtual tree
 		sp.Entry = "FromFile"
 	}
+	sp.WarmUp = sp.NDisks > 1 && sp.Entry != "FromCache" && g.Draw(3) == 0
 	if c11StringEntry(sp.Entry) {
 		// a string template has no location: keep the top file at the root so that
 		// relative names mean the same thing
@@ -845,8 +848,9 @@ func (c11Checker) Run(tp *Tapes, opt RunOpt) *Outcome {
 	doRun := func(faults []c11Fault) runOut {
 		lastFaults = faults
 		w := NewWorld(disks)
+		var plan []FaultSpec
 		for _, f := range faults {
-			w.Plan = append(w.Plan, FaultSpec{Site: KGet, Task: -1, Op: -1, Occ: 0, Fault: f.Kind, Param: f.Param, Repeat: map[bool]int{true: -1, false: f.Count - 1}[f.Count < 0], Match: f.Path, Disk: f.Disk})
+			plan = append(plan, FaultSpec{Site: KGet, Task: -1, Op: -1, Occ: 0, Fault: f.Kind, Param: f.Param, Repeat: map[bool]int{true: -1, false: f.Count - 1}[f.Count < 0], Match: f.Path, Disk: f.Disk})
 		}
 		old := SetCurWorld(w)
 		defer SetCurWorld(old)
@@ -858,10 +862,10 @@ func (c11Checker) Run(tp *Tapes, opt RunOpt) *Outcome {
 			}
 			loaders = append(loaders, w.MakeLoader(d, ls))
 		}
-		set := pongo2.NewSet("C11", loaders...)
+		set := pongo2.NewSet("C11", loaders[0])
 		c11Globals(sp, set)
 		var ro runOut
-		func() {
+		enter := func() {
 			defer func() {
 				if p := recover(); p != nil {
 					ro.res.Panic = fmt.Sprintf("%v\n%s", p, pongoFrames(shortStack()))
@@ -919,7 +923,25 @@ func (c11Checker) Run(tp *Tapes, opt RunOpt) *Outcome {
 				return
 			}
 			ro.res.Out = s
-		}()
+		}
+		if sp.WarmUp && len(loaders) > 1 {
+			// the set starts out with its first loader only and is used once like that
+			// (fault-free; whatever comes out is the caller's business); the other loaders
+			// are added afterwards. What counts is the loader list at the time of the operation.
+			enter()
+			ro = runOut{}
+			w.Gets, w.Access = nil, nil
+			w.pathCounts = map[string]int{}
+			w.counts = map[[3]int]int{}
+			w.active = map[int]int{}
+			w.Fired = map[string]int{}
+			out.probe("loaders_added_after_first_use")
+		}
+		if len(loaders) > 1 {
+			set.AddLoader(loaders[1:]...)
+		}
+		w.Plan = plan
+		enter()
 		out.Execs++
 		for k, v := range w.Fired {
 			out.Faults[k] += v
